@@ -5,6 +5,7 @@ import ScVerif.C16.Merge
 import ScVerif.C16.Free
 import ScVerif.C16.WireLemmas
 import ScVerif.C16.FloatIEEE
+import ScVerif.C16.Rounded
 /-!
 Driver handler for C16.  Parsing/printing glue only (trusted base of the correspondence check).
 
@@ -366,12 +367,48 @@ def handle? (toks : List String) : Option String :=
       " d=" ++ ",".intercalate ((freeDeliveries e' (fun p => (flt p.1, p.2)) inc' acts).map showChg))
   | _ => none
 
+/-- Finite rational of an `F` token. -/
+def parseFin? (s : String) : Option Rat :=
+  match parseF? s with
+  | some (.fin q _) => some q
+  | _ => none
+
+def showRat (q : Rat) : String := toString q.num ++ "/" ++ toString q.den
+
+/-- The rounded tier (Rounded.lean): the comparers' arithmetic over exact rationals with `rne64` applied where
+binary64 rounds.  `overflow` when an intermediate result leaves the finite binary64 range (not modelled). -/
+def handleR? (toks : List String) : Option String :=
+  match toks with
+  | ["far", fr, mg, x, y] => do
+    let fr ← parseFin? fr
+    let mg ← parseFin? mg
+    let x ← parseFin? x
+    let y ← parseFin? y
+    if maxFloat64 < (rne64 (x - y)).abs || maxFloat64 < (rne64 (fr * min x.abs y.abs)).abs then pure "overflow"
+    else pure (showBool (floatApproxR rne64 fr mg x y))
+  | ["dpr", p, x, y] => do
+    let p ← parseFin? p
+    let x ← parseInt? x
+    let y ← parseInt? y
+    pure (showBool (durWithinPR rne64 p x y))
+  | ["rne", n, d] => do
+    let n ← parseInt? n
+    let d ← parseNat? d
+    if d = 0 then none
+    else
+      let r := rne64 ((n : Rat) / (d : Rat))
+      if maxFloat64 < r.abs then pure "overflow" else pure (showRat r)
+  | _ => none
+
 def handle (toks : List String) : String :=
   match handle? toks with
   | some r => r
   | none =>
     match IEEE.handle? toks with
     | some r => r
-    | none => "!bad-op"
+    | none =>
+      match handleR? toks with
+      | some r => r
+      | none => "!bad-op"
 
 end ScVerif.C16
